@@ -281,6 +281,11 @@ func (c *SpecCtx) eval(n *SNode) Val {
 		if v, ok := c.names[n.Name]; ok {
 			return v
 		}
+		if a, ok := e.alias[n.Name]; ok {
+			if v, ok := c.resolveLocal(a); ok {
+				return v
+			}
+		}
 		if v, ok := c.resolveLocal(n.Name); ok {
 			return v
 		}
